@@ -6,7 +6,7 @@ from .c03 import return_alts, is_err_path
 
 PID = "C06"
 META = {
-    "explanation": "Static analysis of the merger on the MIR of the current tree: the heap ordering expression of Entry::cmp is decoded into (primary = current key, secondary = source index, both reversed exactly once); each pushed entry's source index comes from enumerate() over the sources vector, which is only ever appended to; MergerIter::next has exactly one merge call outside every loop fed with the first popped key and once(first value).chain(values of the gathered entries in pop order); the gathering comparison is whole-key equality; each output buffer is cleared before it is refilled; every popped entry gets exactly one move_on_next whose error is propagated and is pushed back iff it still has an entry; the three streaming loops insert exactly the (key, value) the iterator yielded. That a binary heap with this order yields the sorted union is std's contract (trusted).",
+    "explanation": "Static analysis of the merger on the MIR of the current tree: the heap ordering expression of Entry::cmp is decoded into (primary = current key, secondary = source index, both reversed exactly once); each pushed entry's source index comes from enumerate() over the sources vector, which is only ever appended to; MergerIter::next has exactly one merge call outside every loop fed with the first popped key and once(first value).chain(values of the gathered entries in pop order); the gathering comparison is whole-key equality; each output buffer is cleared before it is refilled; every popped entry gets exactly one move_on_next whose error is propagated and is pushed back iff it still has an entry; the three streaming loops insert exactly the (key, value) the iterator yielded. That a binary heap with this order yields the sorted union is std's contract (trusted). The sources are files this Writer emits, read through this cursor: the shared file-wellformedness and cursor-traversal rules (rules/shared.py) are re-run as necessary conditions.",
     "assumptions": ["std::collections::BinaryHeap is a correct max-heap", "Iterator::chain/once/enumerate/collect semantics"],
 }
 
@@ -27,6 +27,9 @@ def run(ck):
         ck.guard("C06-R7", r5_wrappers, ck, F, "C06-R7")
         ck.guard("C06-R7", r7_mirror, ck, F, "C06-R7")
         ck.guard("C06-R7", r3_reset, ck, F, "C06-R7")
+        from . import shared
+        shared.file_wellformed(ck, F, "C06-R8")
+        shared.cursor_traversal(ck, F, "C06-R7")
     ck.trusted += ["rustc MIR construction", "std BinaryHeap / Iterator adaptors"]
 
 
